@@ -19,6 +19,12 @@ NA = {
 
 CLAIMED = {
  # id: (level, technique, text, note, design_ref)
+ "C18": ("fault_enumeration",
+         "real cmd/bcl process in a simulated environment: seeded argv spellings and file modes compared with the in-process library outcome; syscall faults injected with strace at enumerated points",
+         "cmd/bcl has no seam inside the process, so it runs as the real binary; the simulator owns its environment. For each (program class, flag set, file mode) three seeded argv spellings (order, position around the file, clustering, long/short, '--', file by name / '-' / stdin) must give stdout, stderr and exit status equal to what the library produces in-process for the same bytes and options, and identical to each other; --bdump runs are followed by --bload of the written file (by =F, by FILE, on stdin); usage errors must exit 2. Fault enumeration with strace -e inject: open / n-th read of the source, create / k-th write / close of the dump, open / n-th read of the .bcb fail with EACCES/EIO/ENOSPC; conditioned on strace's log showing the injection, exit status 1 with a message, and no incompletely written .bcb may load.",
+         "The goroutine schedule inside the bcl process is not controlled (GOMAXPROCS=1 makes strace's per-thread ordinals stable); no oracle depends on it. A failing write to stdout is not judged (the library ignores it too).",
+         "6/C18"),
+
  "C06": ("exploration",
          "deterministic simulation: seeded storage corruption, truncation, literal stressors and limit scaling of stored sources through the real 3-goroutine file pipeline under process supervision",
          "Seeded search over damaged stored sources (byte flip/drop/insert, token delete/duplicate/replace/transpose, truncation), literal stressors at every literal position (leading zeros, bare 0x, 17-21 digit integers, 3-4 digit exponents, every two-byte escape, \\x/\\u/\\U/octal forms, raw non-UTF-8 bytes), programs scaled to just below/at/above each implementation limit (16 block slots, 1024 operand slots with locals and temporaries, expression and parenthesis nesting, 16-bit jump distance, repeat counts), raw bytes and token soup. Each is run in memory under recover and through ParseFile/InterpretFile/UnmarshalFile in a synctest bubble; a panic in a library goroutine kills the worker and is attributed by the parent through the BEGIN/END journal, confirmed and minimised in child processes; hangs are decided by quiescence, CPU loops by a wall-clock supervisor.",
